@@ -232,8 +232,8 @@ theorem closeImmediate_all {P : Value → Prop} {b b' : Builder} (h : BuilderAll
   unfold Builder.closeImmediate at hr
   dsimp only at hr
   split at hr
-  · exact leave_all (h.congr (b' := { b with nsStack := b.nsStack.tail }) rfl rfl
-      (fun eb' he => Or.inr ⟨eb', he, rfl⟩)) _ _ hr
+  · refine leave_all ?_ _ _ hr
+    exact h.congr rfl rfl (fun eb' he => Or.inr ⟨eb', he, rfl⟩)
   · exact leave_all h _ _ hr
 
 theorem closeElement_all {P : Value → Prop} {b b' : Builder} (h : BuilderAll P b) (pfx loc sp : StrSpan)
@@ -248,10 +248,10 @@ theorem closeElement_all {P : Value → Prop} {b b' : Builder} (h : BuilderAll P
     · split at hr
       · split at hr
         · cases hr
-        · exact leave_all (h.congr (b' := { b with env := env1, nsStack := b.nsStack.tail }) rfl rfl
-            (fun eb' he => Or.inr ⟨eb', he, rfl⟩)) _ _ hr
-      · exact leave_all (h.congr (b' := { b with env := env1 }) rfl rfl
-          (fun eb' he => Or.inr ⟨eb', he, rfl⟩)) _ _ hr
+        · refine leave_all ?_ _ _ hr
+          exact h.congr rfl rfl (fun eb' he => Or.inr ⟨eb', he, rfl⟩)
+      · refine leave_all ?_ _ _ hr
+        exact h.congr rfl rfl (fun eb' he => Or.inr ⟨eb', he, rfl⟩)
 
 theorem attribute_all {P : Value → Prop} {b b' : Builder} (h : BuilderAll P b) (pfx loc value : StrSpan)
     (hr : b.attribute pfx loc value = .ok b') : BuilderAll P b' := by
